@@ -9,7 +9,7 @@ for f in sorted(glob.glob('/verif/seeded/*/meta.json')):
     if len(first) > 150:
         first = first[:147] + '...'
     checks = m.get('checks', {})
-    det = ', '.join('%s: %s' % (p, 'caught' if c['detected'] else ('MISSED' if c['exit'] == 0 else 'inconclusive(exit %d)' % c['exit'])) for p, c in checks.items())
+    det = ', '.join('%s: %s' % (p, 'caught' if c['detected'] else ('MISSED' if c['exit'] == 0 else ('unfinished' if c['exit'] is None else 'inconclusive(exit %d)' % c['exit']))) for p, c in checks.items())
     labels = []
     for c in checks.values():
         for v in c.get('violation_lines', [])[:1]:
